@@ -632,7 +632,7 @@ func (w *c01World) waitMediumForward() {
 	if m.messages.Len() > 0 {
 		return // never forwarded (the observed log will tell)
 	}
-	settle := time.Now().Add(2 * time.Second) // polling: returns as soon as the forwarded broadcast reached the transport
+	settle := time.Now().Add(time.Duration(w.sc.MediumDelayMs)*time.Millisecond + 2500*time.Millisecond) // polling: returns as soon as the forwarded broadcast reached the transport; the writer may pop the item first and sit out the delay holding it
 	for w.tr.count() == before && time.Now().Before(settle) {
 		time.Sleep(200 * time.Microsecond)
 	}
